@@ -74,10 +74,14 @@ Inductive stmt :=
 | SV (ids : list string) | SE (ids : list string)
 | SIn (ls : list string) | SOut (ls : list string) | SBoth (ls : list string)
 | SInE (ls : list string) | SOutE (ls : list string) | SBothE (ls : list string)
+| SInNull (ls : list string) | SOutNull (ls : list string) | SInENull (ls : list string) | SOutENull (ls : list string)
 | SHas (e : hexpr) | SHasLabel (ls : list string) | SHasId (ids : list string) | SHasKey (ks : list string)
 | SAs (name : string) | SSelect (names : list string)
 | SFields (ks : list string) | SRender (template : jv) | SPath | SUnwind (f : string)
 | SDistinct (fs : list string) | SCount | SLimit (n : N) | SSkip (n : N) | SRange (a b : Z).
+
+Definition is_null_move (s : stmt) : bool :=
+  match s with SInNull _ | SOutNull _ | SInENull _ | SOutENull _ => true | _ => false end.
 
 (* ---------- static typing (compile.go) ---------- *)
 Inductive dtype := DNone | DVertex | DEdge | DCount | DAgg | DSel | DRender | DPath.
@@ -97,8 +101,8 @@ Definition type_step (ts : tstate) (s : stmt) : option tstate :=
   match s with
   | SV _ => if dtype_eqb d DNone then Some (DVertex, mt) else None
   | SE _ => if dtype_eqb d DNone then Some (DEdge, mt) else None
-  | SIn _ | SOut _ | SBoth _ => if is_elem d then Some (DVertex, mt) else None
-  | SInE _ | SOutE _ | SBothE _ => if dtype_eqb d DVertex then Some (DEdge, mt) else None
+  | SIn _ | SOut _ | SBoth _ | SInNull _ | SOutNull _ => if is_elem d then Some (DVertex, mt) else None
+  | SInE _ | SOutE _ | SBothE _ | SInENull _ | SOutENull _ => if dtype_eqb d DVertex then Some (DEdge, mt) else None
   | SHas _ => if is_elem d then Some ts else None
   | SHasLabel l | SHasId l | SHasKey l => if is_elem d && negb (match l with [] => true | _ => false end) then Some ts else None
   | SAs n => if negb (dtype_eqb d DNone) && valid_mark n then Some (d, set_assoc n d mt) else None
@@ -172,6 +176,11 @@ Definition ine_of (g : graph) (ls : list string) (t : trav) : list trav :=
                                  then [add_current t (Some (eelem e))] else []) (ge g)
   end.
 
+(* the null-producing moves (inNull, outNull, inENull, outENull): a traveler the move leads nowhere from is kept, with no
+   current element (emitNull in the drivers' Get*Channel) *)
+Definition or_null (t : trav) (l : list trav) : list trav :=
+  match l with [] => [add_current t None] | _ => l end.
+
 Definition is_edge_elem (t : trav) : bool := match t_cur t with Some c => negb (String.eqb (e_to c) "") | None => false end.
 
 (* fields(): top-level property names, "-name" excludes, _gid/_label address the element fields *)
@@ -231,7 +240,7 @@ Definition unwind_set (t : trav) (c : element) (key : option string) (v : jv) : 
   add_current t (Some (match key with Some k => set_data c k v | None => c end)).
 Definition unwind_of (f : string) (t : trav) : list trav :=
   match t_cur t with
-  | None => []
+  | None => [t]                       (* a null traveler has nothing to unwind: passed on as it is *)
   | Some c =>
       match look t f with
       | Some (JList (x :: r)) => map (unwind_set t c (unwind_key f)) (x :: r)
@@ -277,6 +286,10 @@ Definition step (g : graph) (d : dtype) (s : stmt) (ts : list trav) : list trav 
   | SOutE ls => flat_map (oute_of g ls) ts
   | SInE ls => flat_map (ine_of g ls) ts
   | SBothE ls => flat_map (fun t => ine_of g ls t ++ oute_of g ls t) ts
+  | SOutNull ls => match d with DEdge => flat_map (edge_to g) ts | _ => flat_map (fun t => or_null t (out_of g ls t)) ts end
+  | SInNull ls => match d with DEdge => flat_map (edge_from g) ts | _ => flat_map (fun t => or_null t (in_of g ls t)) ts end
+  | SOutENull ls => flat_map (fun t => or_null t (oute_of g ls t)) ts
+  | SInENull ls => flat_map (fun t => or_null t (ine_of g ls t)) ts
   | SHas e => filter (fun t => match_expr (look t) e) ts
   | SHasLabel ls => filter (fun t => match t_cur t with Some c => mem_str (e_label c) ls | None => false end) ts
   | SHasId ids => filter (fun t => match t_cur t with Some c => mem_str (e_gid c) ids | None => false end) ts
